@@ -173,12 +173,14 @@ def _suff():
         prop="C10", module="Suff", trace_module="SuffTrace", driver="drivers.suff",
         cfg={"quick": "Suff_quick.cfg", "thorough": "Suff_thorough.cfg"}, sample={"quick": 1400, "thorough": 12000}, variants=variants,
         spec_files=["Suff.tla", "SuffDefs.tla", "SuffTrace.tla", "Cal.tla"],
-        always=lambda b: 'span |-> 328' in b and 'cls |-> "billing"' in b,        # the off-cycle (known finding) cases are never sampled away
+        always=lambda b: ('span |-> 328' in b and 'cls |-> "billing"' in b) or ('lead |-> 6' in b and 'trail |-> 5' in b),   # known-finding cases are never sampled away
         rule="TLC enumerates class x role x fuel x negatives x start date x span {250..420 incl. 328/329/365/366} x missing-usage and "
              "missing-temperature day counts at each 90% threshold -1/0/+1 x placements (block, early block, spread); a seeded sample is realised as "
              "real frames / series pairs (daily, billing: one row per day; hourly: 24 rows per day) in DST-free and DST zones; "
              "non-trivial = the object carries a disqualification",
-        assumptions=["first and last day of the span are always valid (the statement does not define the span of a series whose edge days are missing)",
+        assumptions=["first and last day of the span are valid; days before / after them that are present in a frame without usage are not part of the span "
+                     "(from_series trims them and the statement demands the same verdict from both entry points): for such frames the length criterion "
+                     "and the agreement of the two entry points are judged, nothing else",
                      "the last timestamp's period counts zero: a span of S days has S-1 countable days compared against 0.9*S (the statement's parenthesis)",
                      "monthly rules: a verdict is demanded only where pooling months by number and by (year, month) agree",
                      "exact-threshold cases are realised in DST-free zones (America/Phoenix, Asia/Kolkata); America/Chicago is used away from the thresholds",
@@ -202,6 +204,26 @@ def _split():
                      "selection: rank of _combination_selection_criteria over model.combinations, ties share a rank"],
         invariants_note="MC config checks the I-layer theorems: generator = closed form (48 candidates), every kept candidate is an exact cover, the unsplit "
                         "model survives trimming, no kept candidate uses a cleared flag or unsupported data; every date has exactly one route under every layout and map")
+
+
+def _prep():
+    from drivers import prep
+
+    def variants(tier, r, cin):
+        return list(prep.VARIANTS) if tier == "thorough" else [r.choice(prep.VARIANTS), r.choice(prep.VARIANTS[:4])]
+
+    return runner.PureSpec(
+        prop="C17", module="Prep", trace_module="PrepTrace", driver="drivers.prep",
+        cfg={"quick": "Prep_quick.cfg", "thorough": "Prep_thorough.cfg"}, sample={"quick": 700, "thorough": 6000}, variants=variants,
+        spec_files=["Prep.tla", "PrepDefs.tla", "PrepTrace.tla"],
+        rule="every pattern of 2 (thorough: 3) consecutive hours over row {present, absent, first of a duplicate} x temperature {value, NaN} x "
+             "usage {value, zero, NaN} x irradiance {value, NaN}, electric / gas, with / without irradiance, enumerated by TLC; each is embedded in "
+             "real frames of 4 days .. 400 days (ragged first / last day, DST change, leap day, an entirely empty usage column) with background gaps; "
+             "the returned frame is compared with the supplied one cell by cell; non-trivial = the pattern contains something other than plain values",
+        assumptions=["on-the-hour local input; frames of at least 4 days (the statement's range)",
+                     "per-cell rule is scale-free; the autocorrelation fill changes lag windows at 3 days / 3 weeks / 6 weeks, so each pattern is replayed at sizes on both sides",
+                     "cells outside the pattern are judged through counters (wrong value, wrong flag, still missing)"],
+        invariants_note="MC config checks the oracle's self-consistency and that zero counts as missing only for electricity")
 
 
 class C07Entry:
@@ -261,7 +283,7 @@ class LifeEntry:
         return lifeprops.selftest(self.prop)
 
 
-_REG = {"C20": lambda: PureEntry(_window()), "C07": lambda: C07Entry(), "C19": lambda: PureEntry(_agg()), "C06": lambda: C06Entry(), "C18": lambda: PureEntry(_seg()), "C14": lambda: PureEntry(_settings()), "C10": lambda: PureEntry(_suff()), "C13": lambda: PureEntry(_split())}
+_REG = {"C20": lambda: PureEntry(_window()), "C07": lambda: C07Entry(), "C19": lambda: PureEntry(_agg()), "C06": lambda: C06Entry(), "C18": lambda: PureEntry(_seg()), "C14": lambda: PureEntry(_settings()), "C10": lambda: PureEntry(_suff()), "C13": lambda: PureEntry(_split()), "C17": lambda: PureEntry(_prep())}
 for _p in ("C01", "C02", "C03", "C04", "C05"):
     _REG[_p] = (lambda p: (lambda: LifeEntry(p)))(_p)
 
